@@ -21,8 +21,9 @@ MANIFEST = {
             "ends), add_assertion (levels), verdict + FitException flag + instance of instance_from_vector "
             "strict/ignored and of instance_from_path_arguments, on generated models x assertion sets x vectors; plus a direct oracle",
     "note": "Trusted: Coq kernel + vm_compute; harness abstraction of live model / assertion objects; exception classes mapped to a small "
-            "enum. Oracle-only (no tree node in the shared model): subtraction, unary minus, abs in operands; unit-vector and "
-            "random-instance routes. Out of scope (declared): instance_from_path_arguments / instance_from_prior_name_arguments "
+            "enum. Subtraction (built as a + (-b)), unary minus and abs are inside the Coq model since ext-tree (NUn: as operands of "
+            "assertions, as attributes of models and as levels carrying assertions). Oracle-only: unit-vector and "
+            "random-instance routes; not modelled: ** // % Log Log10 operands, a unary form of a float (not API-constructible). Out of scope (declared): instance_from_path_arguments / instance_from_prior_name_arguments "
             "(not vector routes; modelled and measured only), Python's native a < b < c, exception_override switch, jax.",
     "technique": "machine-checked proof in Coq (hand-written level-by-level model over the C01 tree, induction on the tree) + vm_compute correspondence",
 }
@@ -57,7 +58,7 @@ def gen_operand(rng, npool, n_foreign=0, depth=0):
         return {"t": "const", "v": (rng.randint(-8, 12) / 4.0).hex()}
     if r < 0.78:
         return {"t": "unary", "op": rng.choice(["neg", "abs"]), "a": {"t": "prior", "ref": rng.randrange(npool)}}
-    op = rng.choice(["+", "*", "/", "-", "-"])
+    op = rng.choice(["+", "*", "/", "-", "-", "%", "%", "//"])
     l = gen_operand(rng, npool, 0, depth + 1) if (depth == 0 and rng.random() < 0.15) else gen_atom(rng, npool)
     rr = gen_atom(rng, npool)
     if l["t"] == "const" and rr["t"] == "const":
@@ -65,7 +66,7 @@ def gen_operand(rng, npool, n_foreign=0, depth=0):
             l = {"t": "prior", "ref": rng.randrange(npool)}
         else:
             rr = {"t": "prior", "ref": rng.randrange(npool)}
-    if op == "/" and rr["t"] == "const" and rng.random() < 0.06:
+    if op in ("/", "%", "//") and rr["t"] == "const" and rng.random() < 0.06:
         rr = {"t": "const", "v": (0.0).hex()}      # p / 0.0: ZeroDivisionError whatever the vector
     return {"t": "arith", "op": op, "l": l, "r": rr}
 
@@ -138,8 +139,8 @@ def levels_of(e, path=()):
         for arg, kind, extra in MG.SIGNATURES[e["cls"]]:
             if kind == "class":
                 out += levels_of(e["kw"][arg], path + (arg,))
-            elif kind == "float" and e["kw"][arg]["t"] == "arith":
-                out.append(list(path + (arg,)))
+            elif kind == "float" and e["kw"][arg]["t"] in ("arith", "unary"):
+                out.append(list(path + (arg,)))      # CompoundPrior / ModifiedPrior held as an attribute: a level of its own
     elif e["t"] == "coll":
         out.append(list(path))
         for k, sub in MG.resolve_copies(e)["items"]:
@@ -154,7 +155,7 @@ def is_arith_level(root, path):
             e = dict((str(a), b) for a, b in MG.resolve_copies(e)["items"])[k]
         else:
             e = e["kw"][k]
-    return e["t"] == "arith"
+    return e["t"]
 
 
 def gen_vector(rng, pool):
@@ -236,7 +237,7 @@ def gen_cases(ctx, n):
     cases = []
     while len(cases) < n:
         g = MG.Gen(rng, max_depth=2 if ctx.tier == "quick" else 3, big_tuples=False,
-                   families=("uniform", "uniform", "gaussian"))
+                   families=("uniform", "uniform", "gaussian"), more_ops=rng.random() < 0.5, pow_ops=False)
         prog = g.program()
         npool = len(prog["pool"])
         if npool == 0 or npool > 24:
@@ -276,7 +277,8 @@ def gen_cases(ctx, n):
                      "z": gen_atom(rng, npool)}
             else:
                 a = {"k": "lit", "v": rng.random() < 0.5}
-            asserts.append({"level": rng.choice(lv), "a": a})
+            lv_un = [p_ for p_ in lv if is_arith_level(prog["root"], p_) == "unary"]
+            asserts.append({"level": rng.choice(lv_un) if lv_un and rng.random() < 0.5 else rng.choice(lv), "a": a})
         vectors = [[hexv(v) for v in gen_vector(rng, prog["pool"])] for _ in range(4)]
         vectors += [[hexv(v) for v in vec] for vec in gen_edge_vectors(ctx, prog["pool"], 3)]
         r = rng.random()
@@ -394,6 +396,9 @@ def operand_representable(t):
     if k == "arith":
         return t["op"] in MG.OPS and name_ok(t["ln"]) and name_ok(t["rn"]) \
             and operand_representable(t["l"]) and operand_representable(t["r"])
+    if k == "unary":
+        return t["op"] in MG.UNOPS and name_ok(t.get("name", "_")) and t["a"]["t"] in ("prior", "arith", "unary") \
+            and operand_representable(t["a"])
     return False
 
 
@@ -456,6 +461,8 @@ def tree_in_model(t):
         return True
     if k == "arith":
         return t["op"] in MG.OPS and tree_in_model(t["l"]) and tree_in_model(t["r"])
+    if k == "unary":
+        return t["op"] in MG.UNOPS and tree_in_model(t["a"])
     if k == "tuple":
         return all(c["t"] in ("prior", "const") for _, c in t["members"])
     if k == "model":
@@ -497,6 +504,10 @@ def apply_op(op, a, b):
         return a * b
     if op == "/":
         return a / b           # Python float division: ZeroDivisionError for a zero divisor
+    if op == "%":
+        return a % b           # the sign of the divisor; ZeroDivisionError for a zero divisor
+    if op == "//":
+        return a // b
     raise ValueError(op)
 
 
@@ -656,7 +667,7 @@ def show(got):
 
 def run(ctx):
     ctx.rule = ("C01 composition programs (uniform / gaussian priors, gaussians also with infinite limits) x 0-3 assertions attached to "
-                "random levels (Model, Collection, CompoundPrior attribute; optionally the model is wrapped in a Collection or copy()-ed "
+                "random levels (Model, Collection, CompoundPrior / ModifiedPrior attribute; model arithmetic + * / - neg abs; optionally the model is wrapped in a Collection or copy()-ed "
                 "afterwards): simple comparisons, two- and three-link chains via (a<b)<c / (a<b)>c, operands = parameters, constants, "
                 "+ * / - with constants on either side, unary minus / abs, parameters foreign to the model, zero divisors, literal "
                 "True/False, Python-native a<b<c; x vectors inside / exactly on / just outside / far outside limits, and for one parameter at a time exactly on, one float step "
@@ -681,7 +692,7 @@ def run(ctx):
         "generated, expected to behave as the last link only)",
         "not generated: a comparison of two bare floats inside a chain, e.g. (p < 0.5) < 2.0 (Python stores a bool in the CompoundAssertion, "
         "which raises AttributeError when evaluated; modelled as Err EAttr, Witness.and_of_literal_unsupported)",
-        "subtraction, unary minus, abs in operands: oracle only (the shared tree has no unary node)",
+        "subtraction (a + (-b)), unary minus, abs: in operands, model attributes and levels, inside the Coq correspondence (NUn)",
         "exception_override config switch is off; jax is off",
     ]
     built = ctx.build()
@@ -741,8 +752,9 @@ def run(ctx):
                 continue       # add_assertion(True) is dropped
             attached.append(a)
             exp_levels.setdefault(tuple(wrap_path(c, a["level"])), []).append(at["built"])
-            ctx.hist("level-kind", "compound-prior" if is_arith_level(prog["root"], a["level"]) else
-                     ("root" if not a["level"] else "depth-%d" % len(a["level"])))
+            lk = is_arith_level(prog["root"], a["level"])
+            ctx.hist("level-kind", "compound-prior" if lk == "arith" else ("modified-prior (unary)" if lk == "unary" else
+                     ("root" if not a["level"] else "depth-%d" % len(a["level"]))))
         got_levels = {tuple(l["path"]): l["asserts"] for l in r["levels"]}
         if exp_levels != got_levels:
             problems.append("levels")
@@ -803,11 +815,23 @@ def run(ctx):
                          "vector route %s, path-argument route %s" % (show(s), show(p)))
             obs = [coq_obs(s), coq_obs(ig), coq_obs(run_["paths"]) if "paths" in run_ else "None"]
             if not in_model:
-                ctx.hist("correspondence", "dropped: shape outside the Coq tree (subtraction / unary operand, compound names)")
+                ctx.hist("correspondence", "dropped: shape outside the Coq tree (compound names, tuple members that are arithmetic)")
             elif None in obs:
                 ctx.hist("correspondence", "dropped: exception class outside the enum")
             else:
                 ctx.hist("correspondence", "compared")
+                if vi == 0:
+                    for f_ in sorted(C01.tree_features(r["tree"])):
+                        ctx.hist("correspondence:unary-in-model-tree", f_)
+                    ops_ = json.dumps([at["recipe"] for at in r["attaches"]])
+                    ctx.hist("correspondence:unary-in-assertion-operands",
+                             "neg/abs operand" if '"t": "unary"' in ops_ else ("no unary operand" if r["attaches"] else "no assertion"))
+                    for o_ in ("%", "//"):
+                        if '"op": "%s"' % o_ in ops_:
+                            ctx.hist("correspondence:unary-in-assertion-operands", "operand with %s" % o_)
+                    for a_ in attached:
+                        if is_arith_level(prog["root"], a_["level"]) == "unary":
+                            ctx.hist("correspondence:unary-in-model-tree", "assertion attached to a ModifiedPrior level")
                 atts = []
                 for a, at in zip(c["asserts"], r["attaches"]):
                     atts.append("{| at_level := %s; at_recipe := %s; at_built := %s; at_ends := %s |}" % (
@@ -881,7 +905,7 @@ def run(ctx):
                     ctx.failure("oracle", msg, dict(c, vectors=[], units=[]), classes=classes, impl=rr)
             elif not (rr["v"] in ("assert", "limit") and rr.get("fit")) and not (
                     rr["v"] == "error" and rr.get("exc") in ("KeyError", "ZeroDivisionError")
-                    and (c.get("n_foreign") or "/" in json.dumps(c["asserts"]) + json.dumps(prog["root"]))):
+                    and (c.get("n_foreign") or any(o_ in json.dumps(c["asserts"]) + json.dumps(prog["root"]) for o_ in ('"/"', '"%"', '"//"')))):
                 ctx.oracle["failures"] += 1
                 ctx.failure("oracle", "random_instance raised %s" % show(rr), dict(c, vectors=[], units=[]), classes=classes, impl=rr)
         if i % 25 == 0:
